@@ -491,7 +491,7 @@ func rulesReaderEntry(c *Ctx, r *Report) {
 			}
 		})
 	}
-	r.floor("A6", n, 12, "io.Reader entries (6 Reader/newReader functions) and 6 opened streams")
+	r.floor("A6", n, 8, "io.Reader entries (6 Reader/newReader functions) and 6 opened streams")
 	reads, buffered := detectDirectReads(c, funcs)
 	pos := ""
 	if len(reads) > 0 {
@@ -678,7 +678,7 @@ func rulesScanAlias(c *Ctx, r *Report, allFormats bool) {
 			r.holds("SCAN-ALIAS", fname(f), "view "+qname(s.Call.StaticCallee()), c.pos(s.Pos()), "this view into the reader's buffer is copied (slices.Clone/append/string conversion) or only inspected before the next read")
 		}
 	}
-	r.floor("SCAN-ALIAS", len(sources), 4, "Scanner.Bytes call sites in fastq")
+	r.floor("SCAN-ALIAS", len(sources), 1, "Scanner.Bytes call sites in fastq")
 	withControl(r, "SCAN-ALIAS escaping view", func(cc *Ctx, fs []*ssa.Function) int {
 		_, h := detectScanAlias(cc, fs)
 		return len(h)
